@@ -162,9 +162,7 @@ func (st *c42State) onInterval(pre, post c21Snap, refill bool) {
 		}
 		if _, staked := s.K.Epochstorage.GetStakeEntryCurrent(s.Ctx, bp.ChainId, bp.Provider); !staked {
 			// left the spec before the distribution: cannot be paid (no stake entry to reward)
-			if _, ok := s.K.Epochstorage.GetStakeEntryCurrent(s.Ctx, bp.ChainId, bp.Provider); !ok {
-				r.Probe("c42_served_provider_unstaked")
-			}
+			r.Probe("c42_served_provider_unstaked")
 			continue
 		}
 		cuBySpec[bp.ChainId] = append(cuBySpec[bp.ChainId], pc{bp.Provider, bp.BasePay.IprpcCu})
